@@ -253,13 +253,26 @@ func c08Instance(c *fw.Ctx, kind c08Kind, mtu int, inputs [][]byte, inKinds []st
 			inA = feedback
 		}
 		canary := func() bool { return false }
-		if call%2 == 1 && feedback == nil {
+		roInput := false
+		if feedback == nil && len(in) > 0 && (len(inputs[0])+3*call)%16 == 5 {
+			// a write-protected input: any store into it faults, also one that is undone before the call returns
+			if ro, release, ok := fw.ReadOnly(in); ok {
+				inA, roInput = ro, true
+				defer release()
+				c.Count("calls_with_write_protected_input", 1)
+			}
+		}
+		if call%2 == 1 && feedback == nil && !roInput {
 			// a caller buffer with spare capacity: the bytes beyond len are the caller's too
 			inA, canary = fw.Roomy(in, 24)
 		}
 		pristine := append([]byte(nil), in...)
 		var outA, outB [][]byte
-		if pv, st := fw.Guard(func() { outA = a.Payload(uint16(mtu), inA) }); pv != nil {
+		if pv, st, fault := fw.GuardFault(func() { outA = a.Payload(uint16(mtu), inA) }); pv != nil {
+			if fault && roInput {
+				c.Fail("C08/"+kind.name+"/input-modified/write-protected-input/"+fw.PanicFunc(st), "the payloader stores into the caller's input buffer (the input was write-protected: the store faulted)", wit(call, "stack", st))
+				return
+			}
 			c.Fail("C08/"+kind.name+"/panic/"+fw.PanicFunc(st), fmt.Sprintf("Payload panicked: %v", pv), wit(call, "stack", st))
 			return
 		}
